@@ -81,7 +81,8 @@ def _setup(case, ctx):
     A = B.reshape(len(modes), -1)[:, mask.ravel() != 0].T
     sv = np.linalg.svd(A, compute_uv=False)
     cond = float(sv[0] / sv[-1]) if sv[-1] > 0 else np.inf
-    if not cond < 1e6:
+    # a mode that (numerically) vanishes on the mask is not independent either, even when it is the only one
+    if not cond < 1e6 or sv[-1] < 1e-6 * np.sqrt(A.shape[0]):
         raise Skip("ill_conditioned_mode_set")
     contiguous = modes == list(range(1, len(modes) + 1))
     ctx.tag("mask:" + case["kind"], "noncontiguous" if not contiguous else "modes_1..k",
@@ -211,7 +212,7 @@ def coords_history(case, ctx):
         A = B.reshape(len(modes), -1)[:, mask.ravel() != 0].T
         sv = np.linalg.svd(A, compute_uv=False)
         cond = float(sv[0] / sv[-1]) if sv[-1] > 0 else np.inf
-        if not cond < 1e6:
+        if not cond < 1e6 or sv[-1] < 1e-6 * np.sqrt(A.shape[0]):
             raise Skip("ill_conditioned_mode_set")
         opd = np.einsum("i,ijk->jk", c, B)
         tol = cond * 256 * eps * float(np.max(np.abs(c))) * np.sqrt(len(c)) + 1e-300
